@@ -6,8 +6,8 @@ QUICK = [
                 "buslost=1", "win=03", "longtoany=1", "lateecho=1"]),
     ("enh-faults", ["enhanced=1", "req=0:3115b5090100", "req=1:31feb50900", "submit=1", "qq=", "nn=0", "snn=0", "echofaults=0", "readerr=1",
                     "buslost=1", "win=03", "longtoany=1"]),
-    ("chunk2-faults", ["chunk2=1", "req=0:3115b5090100", "req=1:31feb50900", "submit=1", "qq=", "nn=0", "snn=0", "echofaults=0", "readerr=1",
-                       "buslost=1", "win=03", "longtoany=1"]),
+    ("chunk2-faults", ["chunk2=1", "req=0:3115b5090100", "submit=1", "qq=", "nn=0", "snn=0", "echofaults=0", "readerr=1",
+                       "buslost=1", "win=03"]),
     ("restart", ["req=2:3115b5090100:2", "submit=1", "qq=", "nn=0", "snn=0", "echofaults=0", "win=03", "buslost=1", "longtoany=1"]),
 ]
 THOROUGH = QUICK + [
@@ -24,9 +24,10 @@ def run(ctx):
     pc.run_configs(ctx, "C04", "q", THOROUGH if ctx.thorough else QUICK, random_runs=rnd,
                    spec_fidelity=[("S:faults", QUICK[0][1], 8)])
     liveness(ctx)
+    run_mode(ctx)
 
 
-LIVE = ["req=0:3115b5090100", "req=1:31feb50900", "req=2:3103b50900:1", "submit=1", "qq=", "nn=0", "snn=0", "echofaults=0", "readerr=1",
+LIVE = ["req=0:3115b5090100", "req=1:31feb50900", "submit=1", "qq=", "nn=0", "snn=0", "echofaults=0", "readerr=1",
         "buslost=1", "win=03", "longtoany=1", "arbnone=0"]
 
 
@@ -37,7 +38,8 @@ def liveness(ctx):
     exe = pc.harness()
     wd = recs.workdir("C04")
     gf = wd + "/g-live.ndjson"
-    out = recs.run_harness(ctx, exe, ["graph", gf] + LIVE + ["events=rx,to,sub,subcb,ntf,del,fin,bad", "maxnodes=400000"])
+    live = LIVE + (["req=2:3103b50900:1"] if ctx.thorough else [])   # a third, restarting request only in the thorough tier
+    out = recs.run_harness(ctx, exe, ["graph", gf] + live + ["events=rx,to,sub,subcb,ntf,del,fin,bad", "maxnodes=400000"])
     info = json.loads(out.strip().splitlines()[-1])
     if not info.get("fixpoint"):
         raise RuntimeError("liveness graph without fix-point: %s" % info)
@@ -46,8 +48,40 @@ def liveness(ctx):
     if res["violated"]:
         toks = graph.tokens_of_trace(res["trace"])
         ctx.violation("C04:request-pending-forever", "lasso in the real handler's graph on which a request stays pending although SYNs / signal loss "
-                      "keep occurring and every arbitration gets a timely outcome (%d steps)" % len(toks), {"harness_args": LIVE, "tokens": toks})
+                      "keep occurring and every arbitration gets a timely outcome (%d steps)" % len(toks), {"harness_args": live, "tokens": toks})
     ctx.coverage["liveness"] = {"graph_nodes": info["nodes"], "graph_edges": info["edges"], "product_states": res["distinct"],
-                                "property": "([]<>progress) => (pending(r) ~> ~pending(r)) under WF(Next)", "harness_args": " ".join(LIVE)}
+                                "property": "([]<>progress) => (pending(r) ~> ~pending(r)) under WF(Next)", "harness_args": " ".join(live)}
     ctx.coverage["states"] += res["distinct"]
     ctx.coverage["transitions"] += res["generated"]
+
+
+def run_mode(ctx):
+    """real threads: the real run() thread against client threads calling sendAndWait / addRequest(wait=true); the recorded event
+    order (serialised at the linearization points by one mutex) is validated linearly by ReqMon + RunMon.  Schedules are sampled."""
+    import json
+    from vf import recs, graph
+    exe = pc.harness()
+    wd = recs.workdir("C04")
+    nruns, nclients, ops = (12, 4, 400) if ctx.thorough else (4, 3, 150)
+    total_events = 0
+    for k in range(nruns):
+        gf = "%s/run-%d.ndjson" % (wd, k)
+        args = ["req=0:31%02xb5090100" % (0x50 + c) for c in range(nclients)] + ["buslost=%d" % (k % 3)]
+        out = recs.run_harness(ctx, exe, ["run", gf, str(nclients)] + args, env={"VF_RUN_OPS": str(ops), "VERIF_SEED": str(ctx.seed * 100 + k)})
+        info = json.loads(out.strip().splitlines()[-1])
+        total_events += info["events"]
+        cf = "%s/cfg-run.json" % wd
+        with open(cf, "w") as f:
+            json.dump(pc.cfg_json(args), f)
+        stats, found = graph.check(ctx, "ProtoGraph", "ProtoGraph.cfg", gf, env={"VF_MON": "qu", "VF_CFG": cf}, tag="C04-run%d" % k,
+                                   workers=2, heap="4g")
+        for sig, toks in found:
+            if sig.startswith("C04:"):
+                evs = [json.loads(l)["succ"][0]["ev"] for l in open(gf).read().splitlines()[max(0, len(toks) - 3):len(toks)] if json.loads(l)["succ"]]
+                ctx.violation(sig, "ReqMon/RunMon reject the event order of a real-thread run (%d clients, run %d, after %d event batches)"
+                              % (nclients, k, len(toks)), {"harness_args": args, "mode": "run", "last_event_batches": evs})
+        ctx.coverage["states"] += stats["distinct"]
+        ctx.coverage["transitions"] += stats["generated"]
+    ctx.coverage["run_mode"] = {"runs": nruns, "clients": nclients, "ops_per_client": ops, "events_validated": total_events}
+    ctx.coverage["traces_validated_against_impl"] += nruns
+    ctx.log("run mode", ctx.coverage["run_mode"])
